@@ -4,7 +4,7 @@ from typing import List, Optional, runtime_checkable
 
 from .decodestate import DecodeState
 from .encodestate import EncodeState
-from .exceptions import EncodeError, odxraise
+from .exceptions import DecodeError, EncodeError, odxraise
 from .odxtypes import ParameterValue
 from .parameters.codedconstparameter import CodedConstParameter
 from .parameters.matchingrequestparameter import MatchingRequestParameter
@@ -126,6 +126,7 @@ def composite_codec_get_coded_const_prefix(codec: CompositeCodec,
 def composite_codec_encode_into_pdu(codec: CompositeCodec, physical_value: Optional[ParameterValue],
                                     encode_state: EncodeState) -> None:
     from .parameters.lengthkeyparameter import LengthKeyParameter
+    from .parameters.nrcconstparameter import NrcConstParameter
     from .parameters.tablekeyparameter import TableKeyParameter
 
     if not isinstance(physical_value, dict):
@@ -153,6 +154,7 @@ def composite_codec_encode_into_pdu(codec: CompositeCodec, physical_value: Optio
                 odxraise(f"Value for unknown parameter '{param_value_name}' specified "
                          f"for composite codec object {codec.short_name}")
 
+    nrc_const_params: List[typing.Tuple[NrcConstParameter, int]] = []
     for param in codec.parameters:
         if id(param) == id(codec.parameters[-1]):
             # The last parameter of the composite codec object is at
@@ -178,6 +180,17 @@ def composite_codec_encode_into_pdu(codec: CompositeCodec, physical_value: Optio
 
         if param.is_required and param.short_name not in physical_value:
             odxraise(f"No value for required parameter {param.short_name} specified", EncodeError)
+
+        if isinstance(param, NrcConstParameter):
+            # NRC-CONST parameters do not encode anything on their
+            # own, they overlap with a parameter that might follow
+            # later. We thus remember their location and verify
+            # their value once all parameters have been encoded.
+            if param.byte_position is not None:
+                nrc_const_byte_pos = encode_state.origin_byte_position + param.byte_position
+            else:
+                nrc_const_byte_pos = encode_state.cursor_byte_position
+            nrc_const_params.append((param, nrc_const_byte_pos))
 
         param_phys_value = physical_value.get(param.short_name)
         param.encode_into_pdu(physical_value=param_phys_value, encode_state=encode_state)
@@ -211,6 +224,24 @@ def composite_codec_encode_into_pdu(codec: CompositeCodec, physical_value: Optio
         else:
             encode_state.table_keys.pop(param.short_name, None)
         encode_state.key_pos.pop(param.short_name, None)
+
+    # make sure that the data which overlaps with NRC-CONST parameters
+    # exhibits one of the values allowed by them. (Otherwise, the
+    # resulting PDU could not be decoded using the object.)
+    for nrc_param, nrc_const_byte_pos in nrc_const_params:
+        tmp_decode_state = DecodeState(
+            coded_message=bytes(encode_state.coded_message),
+            cursor_byte_position=nrc_const_byte_pos,
+            cursor_bit_position=nrc_param.bit_position or 0)
+        try:
+            nrc_value = nrc_param.diag_coded_type.decode_from_pdu(tmp_decode_state)
+        except DecodeError:
+            nrc_value = None
+        if nrc_value not in nrc_param.coded_values:
+            odxraise(
+                f"The data at the location of NRC-CONST parameter "
+                f"{nrc_param.short_name} must be one of {nrc_param.coded_values} "
+                f"(is: {nrc_value!r})", EncodeError)
 
     # encoding the keys must not change the location of subsequent
     # objects
